@@ -75,6 +75,11 @@ pub struct Profile {
     /// an array declared without initialiser may be filled element by element (structural profiles only:
     /// the other elements keep Circom's default, which the claims checked there do not depend on)
     pub elementwise_first: bool,
+    /// compound assignments use all twelve operators whatever `ops` says (structural profiles)
+    pub all_compound_ops: bool,
+    /// components have array ports that are written `c.pin[e] <== ..` and read `c.pout[e]`
+    /// (structural profiles only: the index is any expression over the locals)
+    pub port_arrays: bool,
 }
 
 #[derive(Clone, Debug)]
@@ -119,6 +124,8 @@ impl Profile {
             call_bias: 0,
             data_ternary_chance: 0,
             elementwise_first: false,
+            all_compound_ops: false,
+            port_arrays: false,
         }
     }
     pub fn sem(template: bool, prime: BigUint) -> Profile {
@@ -154,6 +161,8 @@ impl Profile {
             call_bias: 0,
             data_ternary_chance: 0,
             elementwise_first: false,
+            all_compound_ops: false,
+            port_arrays: false,
         }
     }
 }
@@ -427,6 +436,11 @@ impl<'a, 'b> Gen<'a, 'b> {
         }
         let c = comps[self.t.below(comps.len())].clone();
         let Ty::Comp(ti) = c.ty else { return None };
+        if self.p.port_arrays {
+            let ix = self.read(0).unwrap_or_else(|| self.literal());
+            self.saw_data = true;
+            return Some(Expr::Var { id: self.ids.next(), name: c.name, access: vec![Access::Field("pout".into()), Access::Index(ix)] });
+        }
         let sig = &self.p.templates[ti];
         if sig.outputs.is_empty() {
             return None;
@@ -681,7 +695,7 @@ impl<'a, 'b> Gen<'a, 'b> {
                 let form = if self.p.compound && was_assigned { self.t.below(4) } else { 0 };
                 let st = match form {
                     1 => {
-                        let op = match self.p.ops {
+                        let op = match if self.p.all_compound_ops { OpsLevel::All } else { self.p.ops } {
                             OpsLevel::Trivial => *self.t.pick(&[Op::Add, Op::Sub]),
                             OpsLevel::Arith => *self.t.pick(&[Op::Add, Op::Sub, Op::Mul]),
                             OpsLevel::All => *self.t.pick(&[
@@ -903,6 +917,18 @@ impl<'a, 'b> Gen<'a, 'b> {
     pub fn stmt(&mut self, depth: usize, decl_ok: bool) -> Stmt {
         self.budget = self.budget.saturating_sub(1);
         let roll = self.t.below(if depth == 0 { 8 } else { 14 });
+        if self.p.port_arrays && self.t.chance(40) {
+            let comps: Vec<VarInfo> =
+                self.visible().into_iter().filter(|v| matches!(v.ty, Ty::Comp(_)) && self.assigned.contains(&v.key)).collect();
+            if !comps.is_empty() {
+                let c = comps[self.t.below(comps.len())].clone();
+                let ix = self.read(0).unwrap_or_else(|| self.literal());
+                let lhs = Expr::Var { id: self.ids.next(), name: c.name, access: vec![Access::Field("pin".into()), Access::Index(ix)] };
+                let rhs = self.expr(1);
+                let op = if self.t.chance(128) { AssignOp::Constrain } else { AssignOp::Signal };
+                return Stmt::Assign { id: self.ids.next(), lhs, op, rhs, reversed: false };
+            }
+        }
         if self.p.call_bias > 0 && self.t.chance(if self.in_loop > 0 { 40 } else { 24 }) {
             if let Some(s) = self.array_chain() {
                 return s;
@@ -1310,6 +1336,25 @@ impl<'a, 'b> Gen<'a, 'b> {
         self.in_loop -= 1;
         self.assigned = before;
         self.scopes.pop();
+        if self.t.chance(45) {
+            // the other `for` form of the grammar: `var i; for (i = 0; ..; ..)` (kept in a block of its own)
+            let Stmt::Decl { id: decl_id, kind, mut syms, init_op } = init else { unreachable!() };
+            let zero = syms[0].init.take().expect("counter initialiser");
+            let assign = Stmt::Assign {
+                id: self.ids.next(),
+                lhs: Expr::Var { id: self.ids.next(), name: name.clone(), access: vec![] },
+                op: AssignOp::Var,
+                rhs: zero,
+                reversed: false,
+            };
+            if !self.p.uninit_decl {
+                // profiles without uninitialised declarations still initialise the counter at its declaration
+                syms[0].init = Some(self.small_literal(0));
+            }
+            let decl = Stmt::Decl { id: decl_id, kind, syms, init_op };
+            let for_stmt = Stmt::For { id, init: Box::new(assign), cond, step: Box::new(step), body: Box::new(body) };
+            return Stmt::Block { id: self.ids.next(), stmts: vec![decl, for_stmt] };
+        }
         Stmt::For { id, init: Box::new(init), cond, step: Box::new(step), body: Box::new(body) }
     }
 
